@@ -234,3 +234,190 @@ Theorem C02_hist_roots_for_selected : forall h zero max n prev0 rs supported kno
     reader k (s, e) = Some ms /\ complete_read ms s e hs /\ mroot h zero hs = Some r /\ addr k = Some a.
 Proof. exact hist_roots_for_selected. Qed.
 Print Assumptions C02_hist_roots_for_selected.
+
+Require Import Verif.Check.C02_check Verif.Proofs.JudgeSoundC02P.
+(* ---- the executable properties of Check/C02_check.v are the property (judge soundness) ---- *)
+(* For every correspondence sink: (model_passes) the model's own output passes the executable property, under the
+   premises of the property theorem it restates; (sound) an ARBITRARY output that passes satisfies the clause. *)
+
+(* sink C02_lim: Limit — premise: the end is a uint64 *)
+Theorem C02_judge_lim_model_passes : forall i : lim_in, u64 (snd (fst i)) -> lim_ok i (lim_model i) = true.
+Proof. exact lim_model_passes. Qed.
+Print Assumptions C02_judge_lim_model_passes.
+
+(* the start never moves; on a well-formed range with n >= 1 the output is the interval of C02_limit with the bounds
+   of C02_limit_bounds *)
+Theorem C02_judge_lim_sound : forall (i : lim_in) (o : lim_out), lim_ok i o = true ->
+  let '(s, e, n) := i in
+  fst o = s /\
+  ((s <= e)%N -> (1 <= n)%N ->
+     o = (s, N.min e (s + n - 1)) /\
+     (s <= snd o <= e)%N /\ (range_size o <= n)%N /\
+     ((range_size (s, e) <= n)%N -> o = (s, e)) /\
+     ((n < range_size (s, e))%N -> range_size o = n)).
+Proof. exact lim_sound. Qed.
+Print Assumptions C02_judge_lim_sound.
+
+(* sink C02_rng: interval selection — premises of C02_ranges *)
+Theorem C02_judge_rng_model_passes : forall i : rng_in,
+  NoDup (map fst (snd (fst i))) ->
+  (forall k m, alookup k (fst (fst i)) = Some m -> u64 m) ->
+  rng_ok i (rng_model i) = true.
+Proof. exact rng_model_passes. Qed.
+Print Assumptions C02_judge_rng_model_passes.
+
+(* the conclusion of C02_ranges for every output that passes *)
+Theorem C02_judge_rng_sound : forall on off n rs os,
+  rng_ok (on, off, n) (rs, os) = true ->
+  NoDup (map fst off) -> (1 <= n)%N ->
+  (forall k a b, In (k, (a, b)) rs <->
+     exists m, In (k, a) off /\ alookup k on = Some m /\ (a <= m)%N /\ b = N.min m (a + n - 1)) /\
+  KSorted fst rs /\ NoDup (map fst rs) /\
+  (forall k a b, In (k, (a, b)) rs -> (a <= b)%N /\ (range_size (a, b) <= n)%N) /\
+  (forall k o, In (k, o) os <-> In (k, o) off /\ alookup k on <> None) /\
+  KSorted fst os /\ NoDup (map fst os).
+Proof. exact rng_sound. Qed.
+Print Assumptions C02_judge_rng_sound.
+
+(* the conclusion of C02_ranges_omitted for every output that passes *)
+Theorem C02_judge_rng_sound_omitted : forall on off n rs os k,
+  rng_ok (on, off, n) (rs, os) = true ->
+  NoDup (map fst off) -> (1 <= n)%N ->
+  (forall o m, In (k, o) off -> alookup k on = Some m -> (m < o)%N) \/ alookup k on = None \/ ~ In k (map fst off) ->
+  ~ In k (map fst rs).
+Proof. exact rng_sound_omitted. Qed.
+Print Assumptions C02_judge_rng_sound_omitted.
+
+(* the executable property is complete: the only output that passes is the model's *)
+Theorem C02_judge_rng_only_model : forall on off n o,
+  rng_ok (on, off, n) o = true ->
+  NoDup (map fst off) -> (forall k m, alookup k on = Some m -> u64 m) -> (1 <= n)%N ->
+  o = report_ranges on off n.
+Proof. exact rng_ok_only_model. Qed.
+Print Assumptions C02_judge_rng_only_model.
+
+(* sink C02_roots: root observation — premises: uint64 interval ends, input outside the recorded class F01b *)
+Theorem C02_judge_roots_model_passes : forall i : roots_in,
+  (forall k s e, In (k, (s, e)) (snd (fst (fst (fst (fst i))))) -> u64 e) ->
+  roots_known i = 0%N ->
+  roots_ok i (roots_model i) = true.
+Proof. exact roots_model_passes. Qed.
+Print Assumptions C02_judge_roots_model_passes.
+
+(* the conclusion of C02_roots_sound for every reported root of an output that passes, and every message read names
+   the queried source chain (the clause of C02_root_exact_except_known) *)
+Theorem C02_judge_roots_sound : forall (i : roots_in) (o : roots_out), roots_ok i o = true ->
+  let '(sup, ranges, ans, addrs, zero, tbl) := i in
+  (forall k s e a r, In (k, (s, e), a, r) o ->
+     exists su ms hs,
+       sup = Some su /\ In k su /\ In (k, (s, e)) ranges /\
+       reader_of ans k (s, e) = Some ms /\ alookup k addrs = Some a /\
+       complete_read ms s e hs /\ mroot (tbl_h tbl) zero hs = Some r /\
+       Forall (fun m => m_src m = k) ms) /\
+  (length o <= length ranges)%nat.
+Proof. exact roots_sound. Qed.
+Print Assumptions C02_judge_roots_sound.
+
+(* sink C02_hist: Processor.Outcome round by round — premises on THIS round's agreed maps *)
+Theorem C02_judge_hr_model_passes : forall i : hr_in,
+  let '(F, dest, max, n, prev, retry, aos) := i in
+  (forall c, hr_cons F dest aos = Some c ->
+     NoDup (map fst (c_off c)) /\ (forall k m, alookup k (c_on c) = Some m -> u64 m) /\
+     NoDup (map root_chain (c_roots c))) ->
+  hr_ok i (hr_model i) = true.
+Proof. exact hr_model_passes. Qed.
+Print Assumptions C02_judge_hr_model_passes.
+
+(* selecting round: the conclusion of C02_hist_selection_exact for every outcome that passes *)
+Theorem C02_judge_hr_sound : forall F dest max n prev retry aos c o,
+  hr_ok (F, dest, max, n, prev, retry, aos) o = true ->
+  next_state (o_type prev) = Selecting -> hr_cons F dest aos = Some c ->
+  NoDup (map fst (c_off c)) -> (forall k m, alookup k (c_on c) = Some m -> u64 m) -> (1 <= n)%N ->
+  (o_ranges o, o_off o) = report_ranges (c_on c) (c_off c) n /\
+  o_type o = T_selected /\ o_roots o = [] /\ o_attempts o = 0%N /\ o_sigs o = [].
+Proof. exact hr_sound_selecting. Qed.
+Print Assumptions C02_judge_hr_sound.
+
+(* selecting round: the conclusion of C02_hist_selection_characterised *)
+Theorem C02_judge_hr_sound_characterised : forall F dest max n prev retry aos c o,
+  hr_ok (F, dest, max, n, prev, retry, aos) o = true ->
+  next_state (o_type prev) = Selecting -> hr_cons F dest aos = Some c ->
+  NoDup (map fst (c_off c)) -> (1 <= n)%N ->
+  (forall k a b, In (k, (a, b)) (o_ranges o) <->
+     exists m, In (k, a) (c_off c) /\ alookup k (c_on c) = Some m /\ (a <= m)%N /\ b = N.min m (a + n - 1)) /\
+  (forall k, (alookup k (c_on c) = None \/ ~ In k (map fst (c_off c))) -> ~ In k (map fst (o_ranges o))) /\
+  NoDup (map fst (o_ranges o)) /\
+  (forall k v, In (k, v) (o_off o) <-> In (k, v) (c_off c) /\ alookup k (c_on c) <> None).
+Proof. exact hr_sound_selecting_characterised. Qed.
+Print Assumptions C02_judge_hr_sound_characterised.
+
+(* after any history: an outcome that passes agrees with the outcome of C02_hist_selection_exact in every field that
+   theorem speaks about *)
+Theorem C02_judge_hr_sound_history : forall F dest max n prev0 rs retry aos c q o,
+  hr_ok (F, dest, max, n, run max n prev0 rs, retry, aos) o = true ->
+  next_state (o_type (run max n prev0 rs)) = Selecting -> hr_cons F dest aos = Some c ->
+  NoDup (map fst (c_off c)) -> (forall k m, alookup k (c_on c) = Some m -> u64 m) -> (1 <= n)%N ->
+  let o' := run max n prev0 (rs ++ [(q, Some c)]) in
+  o_ranges o = o_ranges o' /\ o_off o = o_off o' /\ o_type o = o_type o' /\ o_roots o = o_roots o' /\
+  o_attempts o = o_attempts o' /\ o_sigs o = o_sigs o'.
+Proof. exact hr_sound_selecting_history. Qed.
+Print Assumptions C02_judge_hr_sound_history.
+
+(* the other rounds: a retry reproduces the previous outcome; a building round selects nothing and reports only roots
+   agreed in this round, no chain twice; a waiting round selects and reports nothing *)
+Theorem C02_judge_hr_sound_other_rounds : forall F dest max n prev retry aos o,
+  hr_ok (F, dest, max, n, prev, retry, aos) o = true ->
+  (next_state (o_type prev) = Selecting -> hr_cons F dest aos = None -> o_ranges o = []) /\
+  (next_state (o_type prev) = Building -> retry = true -> o = prev) /\
+  (next_state (o_type prev) = Building -> retry = false ->
+     o_ranges o = [] /\
+     match hr_cons F dest aos with
+     | None => o_roots o = []
+     | Some c => (forall r, In r (o_roots o) -> In r (c_roots c)) /\ NoDup (map root_chain (o_roots o))
+     end) /\
+  (next_state (o_type prev) = Waiting -> o_ranges o = [] /\ o_roots o = []).
+Proof. exact hr_sound_other_rounds. Qed.
+Print Assumptions C02_judge_hr_sound_other_rounds.
+
+(* sink C02_hobs: Processor.Observation round by round — premises: Go types (uint64), a known-chain list without
+   repetition, one of the four scripted off-ramp reader modes, input outside the recorded class F01b *)
+Theorem C02_judge_ho_model_passes : forall i : ho_in,
+  let '(t, ranges, retry, (sup, known, sd, curse), (mode, cur), ex, (ans, addrs, zero, tbl), fch) := i in
+  (forall k s e, In (k, (s, e)) ranges -> u64 e) ->
+  (forall k w, ho_expected ex k = Some w -> u64 w) ->
+  (forall kn, known = Some kn -> NoDup kn) ->
+  (mode <= 3)%N ->
+  ho_known i = 0%N ->
+  ho_ok i (ho_model i) = true.
+Proof. exact ho_model_passes. Qed.
+Print Assumptions C02_judge_ho_model_passes.
+
+(* the conclusion of C02_hist_observation_roots for every root of an observation that passes *)
+Theorem C02_judge_ho_sound : forall t ranges retry sup known sd curse mode cur ex ans addrs zero tbl fch roots on off f k s e a r,
+  ho_ok (t, ranges, retry, (sup, known, sd, curse), (mode, cur), ex, (ans, addrs, zero, tbl), fch) (roots, on, off, f) = true ->
+  In (k, (s, e), a, r) roots ->
+  next_state (o_type (ho_prev t ranges)) = Building /\ retry = false /\
+  exists su ms hs,
+    sup = Some su /\ In k su /\ In (k, (s, e)) (o_ranges (ho_prev t ranges)) /\
+    reader_of ans k (s, e) = Some ms /\ alookup k addrs = Some a /\
+    complete_read ms s e hs /\ mroot (tbl_h tbl) zero hs = Some r /\
+    Forall (fun m => m_src m = k) ms.
+Proof. exact ho_sound_roots. Qed.
+Print Assumptions C02_judge_ho_sound.
+
+(* sequence numbers and fChain of an observation that passes: off-ramp next only outside building rounds, for known
+   non-cursed chains, the off-ramp's current value; on-ramp latest only in selecting rounds, for known supported
+   chains, expected next - 1; no chain twice *)
+Theorem C02_judge_ho_sound_seqnums : forall t ranges retry sup known sd curse mode cur ex ans addrs zero tbl fch roots on off f,
+  ho_ok (t, ranges, retry, (sup, known, sd, curse), (mode, cur), ex, (ans, addrs, zero, tbl), fch) (roots, on, off, f) = true ->
+  NoDup (map fst off) /\ NoDup (map fst on) /\
+  (forall k v, In (k, v) off ->
+     next_state t <> Building /\ sd = Some true /\ (exists kn, known = Some kn /\ In k kn) /\
+     (exists cursed, curse = Some (false, cursed) /\ ~ In k cursed) /\
+     mode = 0%N /\ v = ho_cursor cur k) /\
+  (forall k v, In (k, v) on ->
+     next_state t = Selecting /\ (exists kn, known = Some kn /\ In k kn) /\ (exists su, sup = Some su /\ In k su) /\
+     exists w, ho_expected ex k = Some w /\ w <> 0%N /\ v = (w - 1)%N) /\
+  (if state_eqb (next_state t) Building && retry then f = [] else f = observe_fchain fch).
+Proof. exact ho_sound_seqnums. Qed.
+Print Assumptions C02_judge_ho_sound_seqnums.
